@@ -56,7 +56,7 @@ type IPFS struct {
 	// ResolveF / BlockGetF are optional harness hooks.
 	ResolveF  func(path string) (cid.Cid, error)
 	BlockGetF func(c cid.Cid) ([]byte, error)
-	seq    int
+	seq       int
 }
 
 // NewIPFS returns an empty model daemon.
@@ -269,9 +269,9 @@ func (m *IPFS) PinLs(ctx context.Context, typeFilter string) (map[string]api.IPF
 	return out, nil
 }
 
-func (m *IPFS) ConnectSwarms(context.Context) error             { return nil }
-func (m *IPFS) SwarmPeers(context.Context) ([]peer.ID, error)   { return nil, nil }
-func (m *IPFS) ConfigKey(string) (interface{}, error)           { return nil, errors.New("no config") }
+func (m *IPFS) ConnectSwarms(context.Context) error           { return nil }
+func (m *IPFS) SwarmPeers(context.Context) ([]peer.ID, error) { return nil, nil }
+func (m *IPFS) ConfigKey(string) (interface{}, error)         { return nil, errors.New("no config") }
 func (m *IPFS) RepoStat(context.Context) (*api.IPFSRepoStat, error) {
 	return &api.IPFSRepoStat{RepoSize: 1, StorageMax: 1000}, nil
 }
